@@ -198,12 +198,19 @@ def check(repo: Repo, R) -> None:
     from . import c02, c03, c08
     R.run(c02.dispatch_completeness, repo, shared.Retag(R, lambda r, k: "C06.10-every-connected-object-is-owned" if "check_connectable" in k else None,
                                                  "a signal that was never added to the module (or belongs to another one) passes the ownership check inside a slice, concatenation or anonymous bundle: the package names an undeclared signal"), noreturn_set(repo))
-    R.run(c08.check, repo, shared.Retag(R, lambda r: "C06.9-failed-visit-never-exported" if r.startswith("C08.3") else None,
+    R.run(c08.check, repo, shared.Retag(R, lambda r: "C06.9-failed-visit-never-exported" if r.startswith("C08.3") or r.startswith("C08.2") else None,
                                  "a module on which a checking pass failed is exported by the next call (the failure was not recorded, the checks are cached as done): the package is ill-formed"))
     R.run(c03.slice_inner, repo, shared.Retag(R, lambda r: "C06.7-targets-stay-inside-widths" if "index-bounds" in r else None,
                                        "a connection target names a bit outside its signal (e.g. bus[w] exported as slice [w:w] of a w-bit bus)"), "C02")
     R.run(c02.live_passes, repo, shared.Retag(R, lambda r: "C06.8-post-flattening-checks-live",
                                        "the flattened design is exported without its final connection checks: instances with unconnected or mis-sized ports reach the package"))
+    # a module that has been checked (and exported) stays as checked: it accepts no further attribute of any kind — every
+    # pass skips modules in its done-cache, so an addition after elaboration reaches the next package unchecked
+    from . import c07 as _c07
+    R.run(_c07.freeze, repo, shared.Retag(R, lambda r: "C06.11-checked-modules-stay-as-checked",
+                                         "a port added to (or re-declared on) an already exported cell goes completely unchecked into the next package: its instances do not connect it, or feed it the wrong width"))
+    R.run(c18.check, repo, shared.Retag(R, lambda r, k: "C06.11-checked-modules-stay-as-checked" if r.startswith("C18.7") or (r.startswith("C18.4") and k.endswith("freeze-guard")) else None,
+                                       "a port added to (or re-declared on) an already exported cell goes completely unchecked into the next package: its instances do not connect it, or feed it the wrong width"))
     R.floor("C06.1-definition-before-use", 5)
     R.floor("C06.5-instance-targets", 16)
     R.floor("C06.4-per-kind-views-disjoint", 2)
